@@ -424,6 +424,59 @@ def _ringorder_rule(chk, prog):
     chk.floor(rule, 2, n)
 
 
+def _coercefirst_rule(chk, prog):
+    """While C code has re-entered the interpreter (janet_call), a fiber cannot suspend: an await is coerced to an error.
+    A channel operation that has to wait REGISTERS the fiber on the channel before it suspends, so the "not inside
+    janet_call" test has to come before the operation is attempted - afterwards the registration is already in the
+    queue, the raise does not remove it, and the next give on that channel resumes the fiber out of some other wait."""
+    rule = "C06-COERCEFIRST"
+    chk.rule(rule, "a channel operation that can register the fiber is preceded by the janet_call test, or can only be followed by return / janet_await")
+    tu = prog.tus["ev.c"]
+    OPS = ("janet_channel_pop", "janet_channel_push", "janet_channel_pop_with_lock", "janet_channel_push_with_lock")
+    n = 0
+    for fn in tu.funcs.values():
+        if not fn.name.startswith("cfun_"):
+            continue
+        ops = [c for c in fn.nodes if c.k == "call" and c.callee in OPS]
+        if not ops or not fn.calls("janet_await"):
+            continue
+        chk.analysed(fn)
+
+        def edge(st, blk, succ, cond, truth):
+            c = flow.compare_of(cond, truth)
+            if c is None:
+                return st
+            l = strip_casts(c[0])
+            if l.k == "mem" and l.field == "coerce_error" and c[2] is None and c[1] == "==":
+                return st | {"plain"}      # coerce_error is known to be 0 here
+            return st
+        IN, OUT, T = flow.forward_paths(fn, frozenset(), lambda st, x: st, edge=edge)
+        for x, S in flow.states_at(fn, IN, T):
+            if x in ops:
+                n += 1
+                chk.instance(rule)
+                # after the operation the only way to leave by a raise may be janet_await: its coercion inside janet_call goes
+                # through janet_signalv, which bumps the generation and so invalidates the registration just made.  A plain
+                # janet_panic after the operation leaves the registration valid.
+                xb = [b.id for b in fn.blocks.values() if any(e is x or any(y is x for y in e.walk()) for e in b.elems)]
+                later_raise = None
+                if xb:
+                    for b in flow.reachable_from(fn, xb[0]):
+                        for e in fn.blocks[b].elems:
+                            if e.k == "call" and e.callee and e.callee != "janet_await" and prog.is_noreturn(e.callee) and \
+                                    (b != xb[0] or e.ln > x.ln):
+                                later_raise = e
+                if S and all("plain" in ps for ps in S):
+                    chk.ok(rule, "%s: %s only after the janet_call test" % (fn.name, x.callee))
+                elif later_raise is None:
+                    chk.ok(rule, "%s: after %s the function can only return or janet_await (whose coercion invalidates the registration)" % (fn.name, x.callee))
+                else:
+                    chk.violation(rule, "ev.c", fn.name, x.callee, x.loc,
+                                  "%s is reached without janet_vm.coerce_error having been tested (and rejected): inside janet_call the "
+                                  "operation can park the fiber on the channel and then raise, leaving a live registration behind" % x.callee)
+    chk.floor(rule, 4, n)
+
+
 def run(chk):
     prog = Program.load("default", units=["ev.c"])
     _select_rule(chk, prog)
@@ -432,3 +485,4 @@ def run(chk):
     _queue_rule(chk, prog)
     _wakepass_rule(chk, prog)
     _ringorder_rule(chk, prog)
+    _coercefirst_rule(chk, prog)
